@@ -27,7 +27,7 @@ sys.path.insert(0, os.path.dirname(os.path.dirname(os.path.abspath(__file__))))
 import tour
 from checks import c09 as h
 
-FAULTS = ["close", "cut", "garbage", "unknown", "oversize", "unmount"]
+FAULTS = ["close", "cut", "garbage", "unknown", "oversize", "unmount", "halfclose"]
 
 
 def dead_end_paths(dot, limit=3, last=None):
@@ -171,6 +171,10 @@ def run(ctx):
                                            "hung_cases": hung, "reproduced_on_code": bool(lost)}
         ctx.log("fan-out counterexample (%d steps x %d) %s on the code" % (len(cex[0]), len(cex) * 150,
                                                                             "REPRODUCED" if lost else "not reproduced"))
+    # (6) the failure path must close the socket: a writer blocked towards a peer that ended its
+    #     sending direction and stopped reading is released by nothing else
+    expect_cex(ctx, "c10-noclose-halfclose", h.consts(2, 1, faults=["halfclose"], fix={"CloseOnFail": False}), h.C10_INVS, st,
+               "failure path without conn.Close under a half-closed peer")
     notes["code_variant"] = dict(fix)
     ctx.log("code variant measured: %s" % fix)
 
